@@ -61,7 +61,7 @@ def _is_bipartite(A):
 
 def check(case, ctx):
     m = case["measure"]
-    W = np.array(case["W"], dtype=float)
+    W = gen.layout(np.array(case["W"], dtype=float), case.get("order"))
     n = len(W)
     fails = []
     ctx.label("measure:" + m)
@@ -80,7 +80,7 @@ def check(case, ctx):
         if directed or _is_bipartite(W != 0):
             ctx.mark_nontrivial(case)
         P = W / W.sum(axis=1, keepdims=True)
-        M = run(bct.mean_first_passage_time, W.copy())
+        M = run(bct.mean_first_passage_time, gen.layout(W.copy(), case.get("order")))
         if M is None:
             return fails
         M = np.asarray(M, dtype=float)
@@ -104,7 +104,7 @@ def check(case, ctx):
             fails.append(Failure("mean_first_passage_time:defining-equation-residual",
                                  "pair %s: relative residual %.3g of M[i,j] = 1 + sum_{k!=j} P[i,k] M[k,j]" % (where, worst), case))
         if m == "diffusion":
-            r = run(bct.diffusion_efficiency, W.copy())
+            r = run(bct.diffusion_efficiency, gen.layout(W.copy(), case.get("order")))
             if r is not None:
                 ge, E = r
                 E = np.asarray(E, dtype=float)
@@ -121,7 +121,7 @@ def check(case, ctx):
         d = case["d"]
         f = case.get("prior")
         f = None if f is None else np.array(f, dtype=float)
-        r = run(bct.pagerank_centrality, W.copy(), d, falff=(None if f is None else f.copy()))
+        r = run(bct.pagerank_centrality, gen.layout(W.copy(), case.get("order")), d, falff=(None if f is None else f.copy()))
         if r is None:
             return fails
         r = np.asarray(r, dtype=float).ravel()
@@ -149,7 +149,7 @@ def check(case, ctx):
         ctx.mark_nontrivial(case)
         ctx.label("repeated-eigenvalue")
     if m == "subgraph":
-        r = run(bct.subgraph_centrality, W.copy())
+        r = run(bct.subgraph_centrality, gen.layout(W.copy(), case.get("order")))
         if r is not None:
             r = np.asarray(r, dtype=float).ravel()
             want = np.diag(sla.expm(W))
@@ -159,7 +159,7 @@ def check(case, ctx):
                                      "node %d: returned %r, expm(A)[v,v] = %r" % (v, r[v] if v >= 0 else r, want[v] if v >= 0 else want), case,
                                      {"repeated": repeated}))
     elif m == "eigenvector":
-        r = run(bct.eigenvector_centrality_und, W.copy())
+        r = run(bct.eigenvector_centrality_und, gen.layout(W.copy(), case.get("order")))
         if r is not None:
             v = np.asarray(r, dtype=float).ravel()
             lam = float(ev.max())
@@ -177,7 +177,7 @@ def check(case, ctx):
                     fails.append(Failure("eigenvector_centrality_und:not-an-eigenvector-of-lambda-max",
                                          "||Av - lambda_max v|| = %.3g (lambda_max=%r)" % (res, lam), case, {"repeated": repeated}))
     elif m == "findwalks":
-        r = run(bct.findwalks, W.copy())
+        r = run(bct.findwalks, gen.layout(W.copy(), case.get("order")))
         if r is not None:
             try:
                 Wq, twalk, wlq = r
@@ -281,7 +281,7 @@ def cases(draw, measures):
     m = draw(st.sampled_from(measures))
     if m in ("mfpt", "diffusion", "pagerank"):
         W, fam = draw(walk_graph(12))
-        c = {"measure": m, "W": W, "family": fam}
+        c = {"measure": m, "W": W, "family": fam, "order": draw(st.sampled_from(gen.ORDERS))}
         if m == "pagerank":
             c["d"] = draw(st.sampled_from([0.5, 0.85, 0.99]))
             if draw(st.booleans()):
@@ -299,7 +299,7 @@ def cases(draw, measures):
         W = draw(gen.weights_for(A, "dyadic", False))
     else:
         W = A.astype(float)
-    return {"measure": m, "W": W, "family": fam}
+    return {"measure": m, "W": W, "family": fam, "order": draw(st.sampled_from(gen.ORDERS))}
 
 
 def units(tier):
